@@ -193,6 +193,55 @@ def case_pinv_lstsq(H, r, c, k, batch):
                                     timeout=(10 if H.quick else 60))
 
 
+def case_solver_history(H, solver_name):
+    """one solver object, called twice with the SAME tensor object A that the caller updated in place in between (what LM's retry loop
+    does with A.diagonal().add_): the second solution must solve the updated system (2x2, normal equations)"""
+    name = 'C10/%s/second-call-after-in-place-update-of-A' % solver_name
+    n = 2
+
+    def mk():
+        return {'PINV': lambda: ppos.PINV(), 'LSTSQ': lambda: ppos.LSTSQ(), 'Cholesky': lambda: ppos.Cholesky()}[solver_name]()
+
+    def prog(m):
+        A, M, vs = _sym_matrix(m, n, 'a', 140)
+        m.ctx.assume += _spd_assume(M, n)
+        b = torch.randn(n, 1, dtype=DT)
+        bs = m.symbolic(b, 'b')
+        lam = torch.tensor([0.7], dtype=DT)
+        ls = m.symbolic(lam, 'l')
+        m.ctx.assume += [ls[0] > z3.RealVal('1/10'), ls[0] < 10]
+        sol = mk()
+        sol(A, b)
+        A.diagonal().add_(lam)                       # in place, same tensor object
+        x2 = sol(A, b)
+        return m.full_terms(x2), M, bs, ls
+
+    def replay(model):
+        A = torch.tensor([[float(model.get('a%d' % (i * n + j), 0.0)) for j in range(n)] for i in range(n)], dtype=DT)
+        A = 0.5 * (A + A.T)
+        if torch.linalg.eigvalsh(A).min() <= 1e-6:
+            A = A + (1e-3 - torch.linalg.eigvalsh(A).min().item()) * torch.eye(n, dtype=DT) + torch.eye(n, dtype=DT)
+        b = torch.tensor([[float(model.get('b%d' % i, 1.0))] for i in range(n)], dtype=DT)
+        if float(b.abs().sum()) == 0:
+            b = torch.ones(n, 1, dtype=DT)
+        lam = float(model.get('l0', 0.7))
+        sol = mk()
+        sol(A, b)
+        A.diagonal().add_(lam)
+        x2 = sol(A, b)
+        res = (A @ x2 - b).abs().max().item()
+        return res > 1e-8 * (1 + b.abs().max().item()), ('%s: second call on the same tensor object after A.diagonal().add_(%.3g) returns a vector with residual '
+                                                        '|A x - b| = %.3g for the updated A' % (solver_name, lam, res))
+
+    for ctx, (x2, M, bs, ls) in run_paths(H, name, prog, max_paths=4, raised=lambda ctx, e: H.absorb(ctx)):
+        hyp = H.hyps_of(ctx)
+        A2 = [[M[i][j] + (ls[0] if i == j else 0) for j in range(n)] for i in range(n)]
+        r_ = [z3.Sum([A2[i][j] * x2[j] for j in range(n)]) - bs[i] for i in range(n)]
+        N = [z3.Sum([A2[i][j] * r_[i] for i in range(n)]) for j in range(n)]
+        for j in range(n):
+            H.prove('%s/path%d/normal-eq[%d]' % (name, H.paths, j), hyp, N[j] == 0, replay=replay, key='C10/%s/history' % solver_name, timeout=20)
+
+
 # ------------------------------------------------------------------------------------------------ CG
 def case_cg(H, n, x0, precond, layout):
     name = 'C10/CG/n=%d/x0=%s/M=%s/%s' % (n, x0, precond, layout)
@@ -398,6 +447,12 @@ def run(H):
     except Exception as e:
         import traceback; traceback.print_exc()
         H.engine_error('pinv/lstsq', e)
+    for sn in ('PINV', 'LSTSQ', 'Cholesky'):
+        try:
+            case_solver_history(H, sn)
+        except Exception as e:
+            import traceback; traceback.print_exc()
+            H.engine_error('history/' + sn, e)
     try:
         for n in (1, 2):
             for x0 in (False, True):
